@@ -238,13 +238,43 @@ func (p *Prog) indexConsumers() []indexSite {
 
 // copyFileFunc: the module function that copies a file (calls io.Copy and opens its first string parameter).
 func (p *Prog) copyFileFunc() *ssa.Function {
+	if fn := p.copyFileFuncBy(func(nm string) bool { return nm == "io.Copy" }); fn != nil {
+		return fn
+	}
+	// a copy loop of the module's own: the function that opens its first path and creates its second
+	var cand *ssa.Function
+	for _, fn := range p.Funcs {
+		if !srcFunc(fn) || funcPkgPath(fn) != pkgSegment || fn.Signature.Params().Len() != 2 || fn.Parent() != nil {
+			continue
+		}
+		opens, creates := false, false
+		for _, b := range fn.Blocks {
+			for _, ins := range b.Instrs {
+				if c, ok := ins.(*ssa.Call); ok && len(c.Call.Args) > 0 {
+					switch calleeName(c.Common()) {
+					case "os.Open":
+						opens = opens || canon(c.Call.Args[0]) == ssa.Value(fn.Params[0])
+					case "os.OpenFile", "os.Create":
+						creates = creates || canon(c.Call.Args[0]) == ssa.Value(fn.Params[1])
+					}
+				}
+			}
+		}
+		if opens && creates {
+			cand = fn
+		}
+	}
+	return cand
+}
+
+func (p *Prog) copyFileFuncBy(isCopy func(string) bool) *ssa.Function {
 	for _, fn := range p.Funcs {
 		if !srcFunc(fn) || funcPkgPath(fn) != pkgSegment || fn.Signature.Params().Len() != 2 {
 			continue
 		}
 		for _, b := range fn.Blocks {
 			for _, ins := range b.Instrs {
-				if c, ok := ins.(*ssa.Call); ok && calleeName(c.Common()) == "io.Copy" {
+				if c, ok := ins.(*ssa.Call); ok && isCopy(calleeName(c.Common())) {
 					return fn
 				}
 			}
